@@ -17,11 +17,11 @@ CLAIMED = {
   ref='6/C05', technique='Lean 4 proof (induction over bytes/segments) + differential correspondence model vs real DataSender/DataReader'),
  'C17': dict(
   text='Lean theorems over Model/Reply.lean (IO.send_reply / IO.recv_reply / Reply transliteration): wire round trip with exact '
-       'consumption for every 3-digit code, every message and every pipelined successor under every segmentation; segmentation '
-       'independence for every byte stream; BadReply for non-reply lines, mixed codes and invalid UTF-8; never a partial reply; '
-       'ESC class = code class. The ESC text fixed point (getter/setter idempotence) is validated by the exhaustive '
-       'differential campaign only, not proved. Tied to the code on every run by exhaustive token-sequence campaigns '
-       '(texts x 7 codes, malformed lines) against real Reply/IO over scripted sockets.',
+       'consumption for every code 1xx-5xx, every message and every pipelined successor under every segmentation; segmentation '
+       'independence for every byte stream; BadReply for non-reply lines, mixed codes, invalid UTF-8 and codes outside 1xx-5xx; never a partial reply; '
+       'ESC class = code class; the text a Reply shows (enhanced status code included) is a fixed point of the library\'s own reading of it '
+       '(reply_text_fixed_point, for every code and every text that does not begin with white space). Tied to the code on every run by exhaustive token-sequence campaigns '
+       '(texts x 7 codes, malformed lines) and op sequences on a Reply object (code / message / status-code-off in any order) against real Reply/IO over scripted sockets.',
   ref='6/C17', technique='Lean 4 proof (scan/append lemma, induction over lines and segments) + differential correspondence model vs real IO/Reply'),
  'C18': dict(
   text='Lean theorems over Model/Proxy.lean (proxyproto.py transliteration; a socket = any stream + any short-read pattern of '
